@@ -63,6 +63,10 @@ def build(prog, seeds=None, roots=None, extra_assume=(), cut=None):
     roots = roots or entry_funcs(prog)
     if seeds is None:
         seeds = {f.qname: {f.params()[0]: "deep"} for f in roots}
+        # objects the caller hands in through options are the caller's too: the explicit .notdef glyph
+        for f in prog.ix.functions.values():
+            if f.name == "__init__" and f.module.name == "ufo2ft.outlineCompiler" and "notdefGlyph" in f.params():
+                seeds.setdefault(f.qname, {})["notdefGlyph"] = "deep"
     o = Ownership(prog, seeds, assume_not_none=list(ASSUME_NOT_NONE) + list(extra_assume), value_calls=VALUE_CALLS,
                   exempt_fresh=EXEMPT_FRESH.keys(), tag_returns=TAG_RETURNS, cut=cut, assume_attr_not_none=("compiler",))
     o.run(roots)
